@@ -279,7 +279,8 @@ TrSchemas ==
     /\ IF E.part = "contract"
        THEN /\ Chk("C16", "contract_table_is_the_union_of_its_parts_tables", l, RowSet(E) = EContractResponsesAt(P, SchemaInst(E)))
             /\ Chk("C16", "every_query_appears_once", l, NRows(E) = Cardinality(EContractResponsesAt(P, SchemaInst(E))))
-            /\ Chk("C16", "contract_schema_is_the_any_of_of_its_parts", l, E.anyof = Len(P.parts))
+            /\ Chk("C16", "contract_schema_is_the_any_of_of_its_parts", l,
+                       E.anyof = Len(P.parts) /\ ("anyof_same" \in DOMAIN E => E.anyof_same))      \* (as many members, and the members are the parts' own schemas)
        ELSE /\ Chk("BIND", "schemas_part_exists", l, HasPart(P, E.part))
             /\ Chk("C16", "each_query_maps_to_the_schema_of_its_declared_response_type", l,
                    RowSet(E) = EResponsesAt(P.parts[PartIx(P, E.part)], SchemaInst(E)))
